@@ -26,7 +26,9 @@ func VerifNew(env *protocol.P2PEnv) *Protocol {
 }
 
 // VerifInitJob is initJob.
-func (p *Protocol) VerifInitJob(pids []string, taskID string) VerifTasks { return p.initJob(pids, taskID) }
+func (p *Protocol) VerifInitJob(pids []string, taskID string) VerifTasks {
+	return p.initJob(pids, taskID)
+}
 
 // VerifDownloadBlock is downloadBlock (mu == nil: the variant without a mutex used by checkTask).
 func (p *Protocol) VerifDownloadBlock(height int64, ts VerifTasks, mu *sync.Mutex) error {
@@ -37,7 +39,9 @@ func (p *Protocol) VerifDownloadBlock(height int64, ts VerifTasks, mu *sync.Mute
 }
 
 // VerifAvailbTask is availbTask.
-func (p *Protocol) VerifAvailbTask(ts VerifTasks, height int64) *VerifTask { return p.availbTask(ts, height) }
+func (p *Protocol) VerifAvailbTask(ts VerifTasks, height int64) *VerifTask {
+	return p.availbTask(ts, height)
+}
 
 // VerifRemove is tasks.Remove.
 func VerifRemove(ts VerifTasks, t *VerifTask) VerifTasks { return ts.Remove(t) }
